@@ -212,6 +212,10 @@ def rv_ins(draw, addr):
     return (n,)
 
 
+REL = [-4096, -4094, -2052, -2050, -2048, -1026, -1024, -258, -256, -130, -128, -126, -4, -2, 0, 2, 4, 126, 128, 254, 256,
+       1022, 1024, 2046, 2048, 4094, 4096, 32766, -32768, 65534, -65536, 0xffffe, -0x100000]
+
+
 def run(tier, seed, shard, nshards):
     s = Stats()
     w = Worker("c01", timeout=3000)
@@ -231,6 +235,7 @@ def run(tier, seed, shard, nshards):
         rnd = random.Random(shard_seed(seed, shard, "c01"))
         corp = [c for i, c in enumerate(sorted(progs.CPU_FILES)) if i % nshards == shard]
         nmut = 6 if tier == "quick" else 40
+        nrel = 3 if tier == "quick" else 24
         try:
             for cpu in corp:
                 lines = progs.comparison_lines(cpu)
@@ -248,6 +253,14 @@ def run(tier, seed, shard, nshards):
                         v = rnd_num.choice(BOUND)
                         variants.append((t[:sp[0]] + ("0x%x" % v if rnd_num.random() < 0.5 else str(v)) + t[sp[1]:],
                                          rnd_num.choice(ADDRS)))
+                    # PC-relative boundary targets: the same holes filled with address + boundary offset
+                    rnd_rel = random.Random(hseed ^ 0x9e3779b9)
+                    for _ in range(min(nrel, 3 * len(holes))):
+                        sp = rnd_rel.choice(holes)
+                        a = rnd_rel.choice(ADDRS[1:])
+                        v = a + rnd_rel.choice(REL)
+                        if v >= 0:
+                            variants.append((t[:sp[0]] + "0x%x" % v + t[sp[1]:], a))
                     regs = list(re.finditer(r"(?<![A-Za-z0-9_])([a-zA-Z$]+)([0-9]{1,2})(?![0-9A-Za-z_])", t))
                     for _ in range(min(nmut // 2, 2 * len(regs))):
                         m = rnd_reg.choice(regs)
@@ -282,6 +295,8 @@ def run(tier, seed, shard, nshards):
                 return
             s.nt(("msp430", ins[0], ins[1] if len(ins) > 1 else "", ins[3][0] if ins[0] == "two" else "",
                   ins[4][0] if ins[0] == "two" else ""))
+            if not optimize:
+                ck.roundtrip("msp430", addr, text)       # the disassembler must agree on the golden forms too
             if got != wb:
                 ck.report("msp430", "golden_mismatch", text.split()[0], dict(
                     what="bytes differ from the encoding the MSP430 family user's guide defines", text=text,
@@ -299,6 +314,7 @@ def run(tier, seed, shard, nshards):
                     what="RV32I base instruction rejected", text=text, addr=addr, expected=want.hex(), mode="golden"))
                 return
             s.nt(("riscv", ins[0]))
+            ck.roundtrip("riscv", addr, text)            # the disassembler must agree on the golden forms too
             if got != want:
                 ck.report("riscv", "golden_mismatch", ins[0], dict(
                     what="bytes differ from the encoding the RISC-V specification defines", text=text, addr=addr,
